@@ -287,6 +287,36 @@ func c02Levels(tier string) []core.Level {
 			}
 		}},
 	}
+	if thorough(tier) {
+		lv = append(lv, core.Level{Name: "depth 2: every pair of binary operators x 12^3 operands, both shapes", Gen: func(emit func(core.Case)) {
+			big := []int{0, 1, 3, 5, 7, 14, 17, 18, 19, 24, 29, 34}
+			for o1 := range c02BinOps {
+				for o2 := range c02BinOps {
+					for _, a := range big {
+						for _, b := range big {
+							for _, c := range big {
+								emit(core.Case{Fam: "binop2", N: []int{o1, o2, a, b, c}})
+							}
+						}
+					}
+				}
+			}
+		}})
+		lv = append(lv, core.Level{Name: "twig environment: every built-in filter x 12 values x every argument list of length 3 over 12 argument values", Gen: func(emit func(core.Case)) {
+			big := []int{0, 3, 5, 7, 14, 17, 18, 24, 26, 29, 34, 35}
+			for f := 0; f < nf; f++ {
+				for _, v := range big {
+					for a := 0; a < na; a++ {
+						for b := 0; b < na; b++ {
+							for c := 0; c < na; c++ {
+								emit(core.Case{Fam: "filter", N: []int{f, v, a, b, c}})
+							}
+						}
+					}
+				}
+			}
+		}})
+	}
 	return lv
 }
 
